@@ -7,3 +7,4 @@ here=$(dirname "$0")/..
 sed -e 's/^package memwire$/package main/' "$here/memwire/memwire.go" > "$WORK/memwire_verif_test.go"
 sed -e 's/^package mon$/package main/' "$here/mon/mon.go" > "$WORK/mon_verif_test.go"
 sed -e 's/^package mon$/package main/' "$here/mon/stream.go" > "$WORK/monstream_verif_test.go"
+sed -e 's/^package mon$/package main/' "$here/mon/interleave.go" > "$WORK/moninterleave_verif_test.go"
